@@ -32,6 +32,8 @@ type Parser struct {
 	errors []string
 	// for each [ being parsed: is it the index of a[...] (where the open ended a[n:] is allowed) or an array literal?
 	bracketIsIndex []bool
+	// the expression being parsed starts a statement (where a comment is allowed).
+	stmtStart bool
 
 	prefixParseFns  map[token.Type]prefixParseFn
 	infixParseFns   map[token.Type]infixParseFn
@@ -223,6 +225,7 @@ func (p *Parser) parseStatement() ast.Node {
 	if p.curToken.Type() == token.RETURN {
 		return p.parseReturnStatement()
 	}
+	p.stmtStart = true
 	stmt := p.parseExpression(ast.LOWEST)
 	if p.peekTokenIs(token.SEMICOLON) {
 		p.nextToken()
@@ -316,6 +319,15 @@ func (p *Parser) parseExpression(precedence ast.Priority) ast.Node {
 	if p.curToken.Type() == token.EOL {
 		log.Debugf("parseExpression: EOL")
 		p.continuationNeeded = true
+		return nil
+	}
+	atStmtStart := p.stmtStart
+	p.stmtStart = false
+	if t := p.curToken.Type(); (t == token.LINECOMMENT || t == token.BLOCKCOMMENT) && !atStmtStart {
+		// f(// c<newline>), x = [1, // c<newline>], if // c<newline> {}: a comment is a statement, not an operand
+		// (printed inline a line comment swallowed what followed it).
+		errLine, lineNum := p.ErrorLine(true)
+		p.errors = append(p.errors, fmt.Sprintf("%d: comment in the middle of an expression:\n%s", lineNum, errLine))
 		return nil
 	}
 	prefix := p.prefixParseFns[p.curToken.Type()]
